@@ -474,7 +474,7 @@ func main() {
 			report(h, 0)
 			return
 		}
-		n := r.N(2000, 60000)
+		n := r.N(2000, 20000)
 		vf.Parallel(n, 8, func(i int) {
 			report(genHist(r.RandN("c13", i), 50), i)
 		})
